@@ -40,6 +40,9 @@ RESTRICTED = {
     "tag_in_plain_choice": "B6: tag in the text of a choice without [ ]",
     "switch_after_open_line": "B7: multi-branch block right after an unfinished line",
     "tag_before_empty_brackets": "B8: `* text # tag [] more`",
+    "empty_labelled_gather": "an empty labelled gather directly followed by another gather: in the compiled form (of the "
+                             "reference compiler too) the second gather is nested in the first, so a divert to the second "
+                             "also counts a visit of the first; the reference interpreter does not model that artefact",
 }
 
 
@@ -386,6 +389,10 @@ class Gen:
                 nch = r.choice([0, 2, 2, 3, 1]) if not (last and nsec > 1) else r.choice([0, 0, 2])
                 if is_root and last and nsec > 1 and not self.has("root_choices_after_gather"):
                     nch = 0
+            if label is not None and not stmts and nch == 0 and not self.has("empty_labelled_gather"):
+                # a labelled gather with nothing in it, directly followed by the next gather: the engine keeps
+                # the next gather INSIDE it (a structural artefact of the compiled form that read counts show)
+                stmts.append(["line", [["t", self.words().capitalize()]]])
             sec = {"label": label, "stmts": stmts, "choices": []}
             secs.append(sec)
             if label is not None:
